@@ -124,6 +124,26 @@ Section Config.
        j_merge := Some {| m_Y := Some {| o_offset := Some (a_merge_offset a); o_scale := Some (a_merge_scale a) |}; m_F := None |};
        j_qmin := None; j_qmax := None |}.
 
+  (* the argparse defaults (io.py:7-86); --density has none and must be given *)
+  Definition default_args (density : A) : args :=
+    {| a_density := density; a_fn := FnName gg; a_rmax := of_Z 50; a_rpoints := of_Z 5000; a_rdelta := None;
+       a_cutoff := None; a_lorch := false; a_bcoh := one; a_btot := one;
+       a_merge_offset := zero; a_merge_scale := one; a_lowq := false |}.
+  (* flags given on the command line override the defaults one by one *)
+  Record given_flags := {
+    g_fn : option fnv; g_rmax : option A; g_rpoints : option A; g_rdelta : option A; g_cutoff : option A;
+    g_lorch : bool; g_bcoh : option A; g_btot : option A; g_merge : option (A * A); g_lowq : bool }.
+  Definition args_of_flags (density : A) (g : given_flags) : args :=
+    let d := default_args density in
+    {| a_density := density; a_fn := opt_or (g_fn g) (a_fn d); a_rmax := opt_or (g_rmax g) (a_rmax d);
+       a_rpoints := opt_or (g_rpoints g) (a_rpoints d);
+       a_rdelta := match g_rdelta g with Some v => Some v | None => a_rdelta d end;
+       a_cutoff := match g_cutoff g with Some v => Some v | None => a_cutoff d end;
+       a_lorch := g_lorch g; a_bcoh := opt_or (g_bcoh g) (a_bcoh d); a_btot := opt_or (g_btot g) (a_btot d);
+       a_merge_offset := match g_merge g with Some (o, _) => o | None => a_merge_offset d end;
+       a_merge_scale := match g_merge g with Some (_, sc) => sc | None => a_merge_scale d end;
+       a_lowq := g_lowq g |}.
+
   (* what pystog_cli does after constructing StoG (cli.py:45-76) *)
   Inductive action :=
   | AReadAll (skiprows : nat) | AMerge | AWriteSQ | ATransform | AWriteGR
